@@ -84,3 +84,35 @@ Print Assumptions C01_prop_of_model_fresh.
 Example C01_example :
   fst (picks_by swrr_pick (init [(0,5);(1,1);(2,1)]) 14) = [0;0;1;0;2;0;0; 0;0;1;0;2;0;0].
 Proof. exact eq_refl. Qed.
+
+(* ---- slow start ("slow start off or finished").  check_one T x is one iteration of checkSlowStart for a backend
+   with slow-start record (final, inSlowStart, elapsed ms, restart flag, slowStartTime); ss_active = restart flag set
+   or in a ramp.  When the ramp ends (inSlowStart becomes false) the weight is EXACTLY the target weight, whatever
+   the elapsed time (no overshoot after a traffic gap) ... *)
+Theorem C01_slowstart_finished_weight : forall T x,
+  ss_active x = true -> ss_in (snd (check_one T x)) = false ->
+  b_w (fst (check_one T x)) = ss_final (snd (check_one T x)).
+Proof. exact check_one_finished. Qed.
+Print Assumptions C01_slowstart_finished_weight.
+(* ... and during the ramp it stays within [0, target] for a positive target (the lower bound is 0, not 1: right
+   after initSlowStart, updateSlowStart recomputes the weight as target*elapsed/slowStartTime = 0). *)
+Theorem C01_slowstart_ramp_bounds : forall T x,
+  0 <= T -> ss_wf x -> 0 < ss_final (snd x) -> ss_active x = true ->
+  0 <= b_w (fst (check_one T x)) <= ss_final (snd x).
+Proof. exact check_one_ramp_bounds. Qed.
+Print Assumptions C01_slowstart_ramp_bounds.
+(* Invariant of every history (Init, Update, SetAvail, SetSlowStart, SetRestart, clock moves, Balance): outside a
+   ramp weight = target = 100 x configured weight — so once all ramps have finished the smooth-WRR state has the
+   configured weights again and the exact-share theorems apply from the next fresh point. *)
+Theorem C01_slowstart_invariant_init : forall conf, Forall ss_good (init2 conf).
+Proof. exact init2_good. Qed.
+Print Assumptions C01_slowstart_invariant_init.
+Theorem C01_slowstart_invariant_op : forall T l o, 0 <= T -> Forall ss_good l ->
+  (match o with OSetSS t => 0 <= t | OElapsed _ e => 0 <= e | _ => True end) ->
+  0 <= fst (apply_op2 (T, l) o) /\ Forall ss_good (snd (apply_op2 (T, l) o)).
+Proof. exact apply_op2_good. Qed.
+Print Assumptions C01_slowstart_invariant_op.
+Theorem C01_slowstart_invariant_balance : forall T l p l',
+  0 <= T -> Forall ss_good l -> pick2 smooth T l = (p, l') -> Forall ss_good l'.
+Proof. exact (fun T l p l' HT G H => proj1 (pick2_spec smooth T l p l' smooth_bal_ok HT G H)). Qed.
+Print Assumptions C01_slowstart_invariant_balance.
